@@ -664,7 +664,10 @@ class HistoryWorld:
                     return 'lost'
                 new = src.clone()
                 if EM.has_empty(new):
-                    sut.count_unknown = True     # (C11.write counts elements: see EM.has_empty)
+                    # (C11.write counts elements: see EM.has_empty; what a blank repetition becomes in the
+                    # copy is not modelled, so the counts of this element stay off for the rest of the run)
+                    sut.count_unknown = True
+                    sut.count_off = True
                 new = EM.text_order(new)
                 new.key = key
             elif 'inst' in v:
@@ -953,7 +956,8 @@ class HistoryWorld:
                     self.probe('model_lost')
                 else:
                     self.check_c09(s, step, op, op.get('root', 0))
-                    if ids_before is not None and not op.get('bad') and not getattr(s, 'count_unknown', False):
+                    if ids_before is not None and not op.get('bad') and not getattr(s, 'count_unknown', False) \
+                            and not getattr(s, 'count_off', False):
                         self.check_c11_write(s, step, op, ids_before, delta)
                     s.count_unknown = False
                     if self.case.get('mix') == 'c04' and not s.wrote_invalid and op.get('root', 0) == 0:
